@@ -44,7 +44,7 @@ QUERIES_RULE = ("queries: every string over a small alphabet (lengths 0..3 quick
                 "functions and all NULL/zero/over-limit combinations")
 
 
-EXTRA_HARNESSES = {"C01": ["tok"], "C02": ["tok"]}
+EXTRA_HARNESSES = {"C01": ["tok", "fmt"], "C02": ["tok", "fmt"], "C03": ["fmt"], "C04": ["fmt"], "C05": ["fmt"], "C08": ["fmt"]}
 
 
 def _engine_check(prop, cfgs, level_text, assumptions, modes=(0,), queries=False):
@@ -57,7 +57,7 @@ def _engine_check(prop, cfgs, level_text, assumptions, modes=(0,), queries=False
             jobs += harness_jobs("queries", prop, tier, ["plain"])
             hs.append("queries")
         for h in EXTRA_HARNESSES.get(prop, []):
-            jobs += harness_jobs(h, prop, tier, ["plain"], nw=4)
+            jobs += harness_jobs(h, prop, tier, ["plain", "noslack"] if (h == "fmt" and "noslack" in cfgs) else ["plain"], nw=4)
             hs.append(h)
         run_workers(jobs, res)
         res.evaluations = res.counters.get("calls", 0)
@@ -114,6 +114,32 @@ def parse_tsan(stderr_text):
         key = "tsan-race|%s|%s" % (loc, "+".join(top))
         out.setdefault(key, blk.strip()[:1200])
     return out
+
+
+FMT_RULE = ("formats: complete sweep of single integer directives (6 conversions x 8 length modifiers x 14 flag sets x 7 widths incl. '*' and negative '*' x 7 precisions "
+            "incl. '.*' x 15 values; quick: every 23rd), single float directives (6 conversions x {plain, L} x 8 flag sets x 5 widths x 5 precisions x 24 values; quick: every 7th), "
+            "%s/%c directives with exact-fit and unterminated %.Ns arguments, seeded random formats of 1-4 directives with literal text and escaped percent signs (a third of them "
+            "containing a %n-type directive in every spelling), each run through sprintf_s/snprintf_s/vsprintf_s/vsnprintf_s with dmax in {needed, needed-1, needed+2, 1, needed/2} and "
+            "through fprintf_s/vfprintf_s/printf_s/vprintf_s on temporary files; history re-issue; distinct = (entry point, directive feature class, fit class, outcome)")
+
+
+def _fmt_check(prop, what):
+    def run(tier):
+        t0 = time.time()
+        res = Results(prop)
+        jobs = harness_jobs("fmt", prop, tier, ["plain"], nw=NCPU if tier == "thorough" else 8)
+        run_workers(jobs, res)
+        res.evaluations = res.counters.get("c11_decided" if prop == "C11" else "c09_decided", 0)
+        return finish(res, tier, "exploration", FMT_RULE, t0,
+                      extra_cov=dict(builds=["plain"], harnesses=["fmt"], format_cases=res.counters.get("cases", 0), library_calls=res.counters.get("calls", 0),
+                                     n_formats=res.counters.get("c09_n_formats", 0), stream_comparisons=res.counters.get("stream_comparisons", 0), explanation=what),
+                      assumptions=FENCE_ASSUME + ["reference: glibc snprintf through the same variadic dispatcher; float oracle = requested layout + value within one unit of the last printed digit",
+                                                   "text deviations of the shared formatting engine are keyed by root-cause class (see DESIGN.md C11), not by entry point"],
+                      min_evals=500)
+    return run
+
+
+CHECKS["C11"] = _fmt_check("C11", "differential against C printf")
 
 
 def _c12(tier):
